@@ -74,6 +74,20 @@ CHECKS = {
          'equality of the result across orders are required. Sampling, not proof.',
     note='Trusted: reference extraction and flow-equation checker in tsim/refgram.py. Counts in '
          'written files are checked by C09.'),
+ 'C09': dict(
+    ref='DESIGN.md §5 C09',
+    technique='deterministic simulation: multi-file grammar output on the simulated file system '
+              '(write-log history), API and CLI paths, encodings, second hash seed, own-reader '
+              're-read with short reads; independent decoders as reference',
+    text='Seeded exploration: grammars extracted (and binarized in a seeded mode) from seeded '
+         'treebanks are written as pmcfg/rcg/lopar through the API or the real `grammar` command; '
+         'independent decoders must give back the in-memory grammar dumped before the writer ran, '
+         'the file set must be complete, closed and nothing else written (write-log history), the '
+         'own RCG reader and `grammar --src-format rcg` must return/re-emit the same grammar, '
+         'LoPar side files must be right under two hash seeds, refusals must happen exactly where '
+         'documented. Sampling, not proof.',
+    note='Trusted: decoders in tsim/refgram.py (LoPar .gram read as a multiset of surface-order '
+         'rules), platform.system stub. Labels/words restricted to what the formats can carry.'),
 }
 
 NOT_BUILT_YET = {}
